@@ -6,7 +6,7 @@ from sa.absint import Const, Interp, State, Sym
 from sa.model import (AnalysisError, call_tail, const_str, dotted, kwarg, norm,
                       walk_local)
 from sa.pathrules import FnView, receiver
-from sa import tables, templates
+from sa import sqllex, tables, templates
 from rules import common as K
 
 
@@ -522,6 +522,156 @@ def with_order(chk, rid):
   chk.ob(rid, ok, None, 'WITH bodies are comma separated', 'separator changed', fi=g.fi)
 
 
+# ---------------------------------------------------------------------------
+EMITTERS = [
+    ('expr_translate', 'QL', None),
+    ('dialects', None, None),
+    ('rule_translate', 'RuleStructure', ['AsSql', 'OwnVarsVocabulary']),
+    ('rule_translate', 'ExceptExpression', ['Build']),
+    ('universe', 'LogicaProgram', ['PredicateSql', 'FunctionSql', 'SingleRuleSql',
+                                   'GenerateWithClauses', 'FormattedPredicateSql',
+                                   'BuildUdfs']),
+    ('universe', 'SubqueryTranslator', ['TranslateTableAttachedToFile',
+                                        'AddClickhouseDropAction', 'TranslateTable']),
+    ('universe', 'Annotations', ['Preamble', 'AttachDatabaseStatements', 'LimitClause',
+                                 'OrderByClause', 'TvfSignature']),
+    ('infer', 'TypeCollector', ['BuildPsqlDefinitions', 'PsqlType', 'ClickHouseType']),
+    ('infer', None, ['BuildPreamble']),
+]
+STRING_NODES = (ast.BinOp, ast.JoinedStr)
+SQL_RESULT_CALLS = {'ConvertToSql', 'TranslateTable', 'TranslateRule', 'PredicateSql',
+                    'SingleRuleSql', 'AsSql', 'Function', 'Infix', 'Record', 'ListLiteral',
+                    'ConvertToSqlForGroupBy', 'Subscript', 'Implication', 'FunctionSql'}
+
+
+def emitter_functions(repo):
+  out = []
+  for modname, cls, names in EMITTERS:
+    m = repo.by_name(modname)
+    for q, fi in m.funcs.items():
+      top = q.split('.')[0]
+      if cls is None:
+        ok = (names is None) or (q in names)
+      else:
+        ok = top == cls and (names is None or (len(q.split('.')) > 1 and q.split('.')[1] in names))
+      if ok:
+        out.append(fi)
+  return out
+
+
+def _is_stringish(e):
+  if isinstance(e, ast.Constant):
+    return isinstance(e.value, str)
+  if isinstance(e, ast.JoinedStr):
+    return True
+  if isinstance(e, ast.BinOp) and isinstance(e.op, (ast.Add, ast.Mod)):
+    return _is_stringish(e.left) or (isinstance(e.op, ast.Add) and _is_stringish(e.right))
+  if isinstance(e, ast.Call) and isinstance(e.func, ast.Attribute) and \
+      e.func.attr in ('format', 'join') and isinstance(e.func.value, ast.Constant) and \
+      isinstance(e.func.value.value, str):
+    return True
+  if isinstance(e, ast.IfExp):
+    return _is_stringish(e.body) or _is_stringish(e.orelse)
+  return False
+
+
+def balanced_emission(chk, rid):
+  from sa import strshape
+  from sa.setorder import _parents
+  repo = chk.repo
+  fns = emitter_functions(repo)
+  if len(fns) < 40:
+    raise AnalysisError('only %d emitter functions found' % len(fns))
+  n_expr = 0
+  for fi in fns:
+    par = _parents(fi.node)
+    doc = ast.get_docstring(fi.node, clean=False)
+
+    def in_diag(x):
+      p = x
+      while p is not None:
+        if isinstance(p, ast.Raise):
+          return True
+        q = par.get(p)
+        if isinstance(q, ast.Assert) and q.msg is p:
+          return True
+        if isinstance(p, ast.Call):
+          t = call_tail(p) or ''
+          if t in ('exception_maker', 'Format', 'Warn', 'print', 'AnnotationError',
+                   'RaiseCompilerError') or t.endswith('Exception') or t.endswith('Error'):
+            return True
+        p = q
+      return False
+    for x in walk_local(fi.node):
+      if not _is_stringish(x):
+        continue
+      p = par.get(x)
+      # maximal: the parent is not itself part of the same string expression
+      if p is not None and _is_stringish(p) and not isinstance(p, ast.IfExp):
+        continue
+      if isinstance(p, ast.IfExp) and _is_stringish(p):
+        continue
+      if isinstance(p, ast.Attribute) and p.attr in ('format', 'join', 'replace', 'startswith'):
+        continue      # receiver of a method: judged at the call
+      if isinstance(x, ast.Constant) and (x.value == doc or isinstance(p, ast.Expr)):
+        continue
+      if isinstance(x, ast.Constant) and isinstance(p, (ast.Compare, ast.Subscript, ast.Dict,
+                                                        ast.List, ast.Tuple, ast.Set, ast.keyword)):
+        continue      # keys, comparisons, tables (tables are checked entry by entry)
+      if isinstance(x, ast.Constant) and isinstance(p, ast.Call) and \
+          not (call_tail(p) in ('append', 'extend')):
+        continue      # argument of a lookup / helper, not emitted text
+      if in_diag(x):
+        continue
+      n_expr += 1
+      for parts in strshape.static_skeletons(x):
+        text_parts = [q for q in parts if isinstance(q, str)]
+        if not text_parts:
+          continue
+        st, holes = strshape.scan_skeleton(parts)
+        ok = st.balanced()
+        chk.ob(rid, ok, None, 'emitted fragment %s' % norm(x, 70),
+               'brackets / quotes of the emitted text do not balance (%s): the '
+               'statement this fragment is part of is malformed' % st.describe(),
+               fi=fi, node=x, nontrivial=len(''.join(text_parts)) > 3)
+        for h, q in holes:
+          if q in ("'", '"') and isinstance(h.node, ast.Call) and \
+              call_tail(h.node) in SQL_RESULT_CALLS:
+            chk.ob(rid, False, None, 'SQL fragment %s inside a quoted literal' % h.text,
+                   'compiled SQL is spliced inside quotes: its own quotes end the literal',
+                   fi=fi, node=x)
+  chk.extra['emitter_functions'] = len(fns)
+  chk.extra['string_building_expressions'] = n_expr
+  # template tables entry by entry
+  classes = templates.dialect_classes(repo)
+  tabs = []
+  base_f, _ = templates.class_table(repo, 'QL', 'BUILT_IN_FUNCTIONS')
+  base_i, _ = templates.class_table(repo, 'QL', 'BUILT_IN_INFIX_OPERATORS')
+  ana, _ = templates.class_table(repo, 'QL', 'ANALYTIC_FUNCTIONS')
+  ql = repo.func('expr_translate.QL.ConvertToSql')
+  for label, tab, fi in (('QL function', base_f, ql), ('QL infix', base_i, ql), ('QL analytic', ana, ql)):
+    tabs.append((label, tab, fi))
+  for engine, cls in sorted(classes.items()):
+    for meth in ('BuiltInFunctions', 'InfixOperators'):
+      t, fi = templates.dialect_table(repo, cls, meth)
+      if t:
+        tabs.append(('%s.%s' % (cls, meth), t, fi))
+    for meth in ('UnnestPhrase', 'ArrayPhrase'):
+      t, fi = templates.dialect_const(repo, cls, meth)
+      if t:
+        tabs.append(('%s.%s' % (cls, meth), {meth: t}, fi))
+  n_t = 0
+  for label, tab, fi in tabs:
+    for name, t in sorted(tab.items()):
+      if not isinstance(t, str) or t == 'UNUSED':
+        continue
+      n_t += 1
+      st = sqllex.scan(strshape.template_as_text(t))
+      chk.ob(rid, st.balanced(), None, "%s template '%s' is balanced" % (label, name),
+             'template `%s` is %s' % (t, st.describe()), fi=fi, nontrivial=False)
+  chk.extra['templates_scanned'] = n_t
+
+
 def run(chk):
   chk.assume('A5: dialect objects are reached as `<x>.dialect` or dialects.Get(..)')
   chk.rule('C09-R1', 'dialect interface conformance: every method invoked on '
@@ -533,6 +683,14 @@ def run(chk):
            'every admissible argument count and has an arity source',
            min_instances=100)
   template_tables(chk, 'C09-R2')
+  chk.rule('C09-R3', 'balanced emission: every maximal string-building '
+           'expression of the emitter functions, and every template, has '
+           'balanced brackets and closed quotes with holes as atoms (the whole '
+           'statement is balanced by induction over the emitter call tree); no '
+           'compiled SQL fragment is spliced inside quotes', min_instances=150)
+  chk.assume('A2: identifier holes (field, predicate, table, type names) contain no '
+             'quote or bracket characters')
+  balanced_emission(chk, 'C09-R3')
   chk.rule('C09-R4', 'no placeholder leak: UNUSED entries are special-cased '
            'before the generic loop, the DUMMY() UDF bootstrap is '
            'overwritten, the nil marker is a SQL comment and is filtered',
